@@ -245,6 +245,16 @@ def run_shard(rec):
                 x = ('rep', ('str', 'a'), 0, None)
             run_ast(rec, gast.simple_grammar({'start': ('seq', [x, ('re', '[ab]*', False)])}),
                     work.inputs_for('ab', maxlen), ('rep', m, n), styles)
+    # literals that need escaping, in both quote styles and all layouts
+    for ztag, lit, alpha in gen.literal_zoo():
+        idx += 1
+        if not rec.mine(idx):
+            continue
+        G = gast.simple_grammar({'start': ('seq', [('star', lit), ('re', '(?s).*', False)])})
+        if not gen.well_formed(G):
+            rec.drop()
+            continue
+        run_ast(rec, G, list(gen.all_strings(alpha, 3)), ('zoo', ztag), styles)
     # bounds whose literals differ in digit count (text vs number comparison of the bounds)
     wide_inputs = ['a' * k + t for k in range(0, 14) for t in ('', 'b')]
     for m, n in [(2, 10), (9, 12), (10, 11), (0, 10), (10, None), (None, 10), (12, 12), (1, 100), (9, 10), (3, 3)]:
